@@ -33,14 +33,17 @@ TRUSTED = [
     "hand-written model Model/Job.v tied to job.py / operators.py / individual.py / algorithm_sweep.py by this correspondence run",
     "the objective, the constraint function and VectorAndNumbers.gen_vector are oracles: observed on the implementation and given to the model "
     "as tapes; the theorems hold for every oracle",
-    "np.round(y, decimals=p) = rint(y*10^p)/10^p (rint(y) for p = 0) with rint by the 2^52 trick and sign * value as a float product: "
+    "np.round(y, decimals=p) of a float = rint(y*10^p)/10^p (rint(y) for p = 0) with rint by the 2^52 trick and sign * value as a float "
+    "product; of an integer object (the objective returned Python ints) = that integer (numpy's integer path, decimals >= 0) and sign * "
+    "value the exact integer product (no negative zero): the driver's numbers carry an integer-object tag (Run/C05Run.v `num`, `nroundp`, "
+    "`nsmul`; the tag is taken from the type of the object the implementation holds and is not itself compared); "
     "executed bit-exactly in the binary64 driver (Run/C05Run.v) for the design's stored precision p = features['precision'] and compared "
     "bit for bit; the theorems are stated for an abstract roundp / smul (the rational instance is proved to be within half a unit of "
     "the p-th decimal of its argument)",
     "SciPy / NLopt themselves are not modelled: the real optimiser runs of the thorough tier are checked by the direct oracle only",
 ]
 ASSUMPTIONS = [
-    "the objective returns a fresh list of floats, does not modify the individual it is given, and the constraint function and "
+    "the objective returns a fresh list of floats (or of Python ints of magnitude < 2^53: exactly representable), does not modify the individual it is given, and the constraint function and "
     "data_store.sync_individual do not raise",
     "design objects are distinguished by identity (two designs with equal vectors are two designs); ids are heap positions in the model",
     "the ranking clause of the marker is stated for problems that declare at least one inequality constraint (without constraints every "
@@ -86,15 +89,23 @@ def is_num(x):
     return isinstance(x, (int, float)) and not isinstance(x, bool) or type(x).__name__ in ("float64", "float32", "int64", "int32")
 
 
+def is_int_object(x):
+    """a number the implementation holds as an integer object: numpy's round / multiply take the integer path for it"""
+    return (isinstance(x, int) and not isinstance(x, bool)) or type(x).__name__ in ("int64", "int32", "int16", "int8", "uint64", "uint32")
+
+
 def enc_num(x):
-    return fl(float(x)) if is_num(x) else "nan"
+    """Run/C05Run.v `num`: F = float object, I = integer object (np.round is the identity on it)"""
+    if not is_num(x):
+        return "(F nan)"
+    return "(%s %s)" % ("I" if is_int_object(x) else "F", fl(float(x)))
 
 
 def enc_vec(v):
     try:
         return ll(list(v), enc_num)
     except TypeError:
-        return "[nan; nan; nan; nan; nan; nan; nan; nan; nan]"
+        return "[F nan; F nan; F nan; F nan; F nan; F nan; F nan; F nan; F nan]"
 
 
 def enc_snap(s):
@@ -348,7 +359,7 @@ class Session:
         if style == "tuple":
             return tuple(costs)
         if style == "int":
-            return [int(c) if (math.isfinite(c) and c == int(c) and c != 0 and abs(c) < 2 ** 50) else c for c in costs]
+            return [int(c) if (math.isfinite(c) and c == int(c) and (c != 0 or math.copysign(1.0, c) > 0) and abs(c) < 2 ** 50) else c for c in costs]
         return list(costs)
 
     def constraints(self, x, base):
@@ -1176,9 +1187,29 @@ def new_hist():
             "constraints": {}, "results": {}, "sweep_generators": {}}
 
 
+def integer_cost_sessions(lab, make=None):
+    """The objective returns Python ints: np.round takes numpy's INTEGER path (identity for decimals >= 0, result numpy.int64) and
+    sign * value is the exact integer product (no negative zero) - not rint(y * 10^p) / 10^p, which loses the last digits as soon
+    as |y| * 10^p >= 2^53 (found by a seed sweep: cost 250000000001000, precision 7).  Costs up to 3e14 with stored precision
+    0 / 3 / 7 / 10 / 15, integer 0 under minimise / maximise / no criterion, negative integers."""
+    make = make or (lambda cfg: Session(lab, cfg))
+    base = dict(dim=3, ncons=0, mode="int", coef=[[0.0, 1.0, -0.7, 1.0 / 7.0]] * 5, thr=[1.0, 0.5], extra=0, pstyle=0, schedule=[], ret="int")
+    out = []
+    for crit in (["minimize", "maximize"], ["maximize", None, "minimize"], ["maximize"]):
+        s = make(dict(base, crit=crit))
+        for v, prec in (([3e7, 0.0, -1.5e7], None), ([2.7e7, 1.0, 2.0], 10), ([0.0, 0.0, 0.0], None), ([1e6, -2e6, 3e6], 15), ([-3e7, 2.9e7, 12345678.0], 0),
+                        ([1.75, 0.0, 2.7e7], 3), ([0.0, 0.0, 0.0], 12), ([94906267.0, 0.0, 0.0], None), ([1.0, 2.0, 3.0], None)):
+            s.mk(v, {"precision": prec} if prec is not None else None)
+        s.evaluate(list(range(9)))
+        s.scalar([3e7, 1.0, 0.0])
+        s.scalar([0.0, 0.0, 0.0])
+        out.append(s.freeze())
+    return out
+
+
 def corpus(lab):
     """Boundary cases read off the code."""
-    out = []
+    out = integer_cost_sessions(lab)
     base = dict(dim=2, crit=["minimize", "maximize"], ncons=1, mode="plain", coef=[[0.123456789, 1.0, -0.7, 1.0 / 7.0]] * 5,
                 thr=[1.0, 0.5], extra=0, pstyle=0, schedule=[])
     # new / evaluated / new, evaluated twice; aliasing; equal vectors in two designs
